@@ -964,6 +964,36 @@ def check_requires(fn, site, requires, prov=None):
                 if want is None or want == edge or (want == 'nonzero' and edge != '0') or (want == '1' and edge == 'otherwise'):
                     return True
         return False
+    def top_split(desc):
+        m = re.match(r'^(Gt|Lt|Ge|Le)\((.*)\)$', desc)
+        if not m:
+            return None
+        body, depth = m.group(2), 0
+        for i, ch in enumerate(body):
+            if ch in '({':
+                depth += 1
+            elif ch in ')}':
+                depth -= 1
+            elif ch == ',' and depth == 0:
+                return m.group(1), body[:i], body[i + 1:]
+        return None
+
+    def le_holds(r):
+        # {'le': [A, B]}: a dominating comparison establishes A <= B, however it is written
+        ra, rb = r['le']
+        for desc, edge in conds:
+            sp = top_split(desc)
+            if not sp:
+                continue
+            op, x, y = sp
+            true_edge = edge != '0'
+            for (o, l, rr) in ((op, x, y), ({'Gt': 'Lt', 'Lt': 'Gt', 'Ge': 'Le', 'Le': 'Ge'}[op], y, x)):
+                # normalised so that l is matched against A and rr against B
+                if re.search(ra, l) and re.search(rb, rr) and ((o == 'Gt' and not true_edge) or (o == 'Le' and true_edge)):
+                    return True
+        return False
+    _holds = holds
+    holds = lambda r: le_holds(r) if 'le' in r else _holds(r)
     for r in requires:
         # {'any': [alt, ...]}: the same guard written in one of several equivalent ways (a >= b, b <= a, !(a < b), ...)
         ok = any(holds(a) for a in r['any']) if 'any' in r else holds(r)
